@@ -324,106 +324,240 @@ def _window_subject(m):
     return H + ".dispatch", m.flat(H + ".dispatch")
 
 
+ROUNDING_CALLS = ("int", "round", "floor", "ceil", "trunc", "total_seconds", "timestamp")
+
+
+def _bound_attrs(m):
+    """{attribute of the handler: ("exact" | "rounded", which bound, assignment)} for the attributes __init__ derives from its
+    starttime / endtime parameters.  exact: the parameter as it is after being made timezone-aware and turned into the difference
+    to the epoch; rounded: a rounding operation (//, /, %, int(), round(), ...) lies on the way."""
+    f = m.flat(H + ".__init__").fn()
+    out = {}
+    taint = {"starttime": ("start", False), "endtime": ("end", False)}
+    assigns = sorted((a for a in pyfront.walk_no_nested(f) if isinstance(a, ast.Assign)), key=lambda a: (a.lineno, a.col_offset))
+    for _pass in range(2):
+        for a in assigns:
+            src = [taint[x.id] for x in ast.walk(a.value) if isinstance(x, ast.Name) and x.id in taint]
+            for x in ast.walk(a.value):
+                if isinstance(x, ast.Attribute) and isinstance(x.value, ast.Name) and x.value.id == "self" and x.attr in out:
+                    src.append((out[x.attr][1], out[x.attr][0] == "rounded"))
+            if not src:
+                continue
+            def tainted(e):
+                return any((isinstance(y, ast.Name) and y.id in taint) or (isinstance(y, ast.Attribute) and isinstance(y.value, ast.Name)
+                           and y.value.id == "self" and y.attr in out) for y in ast.walk(e))
+            rounds = any(tainted(x) and ((isinstance(x, ast.BinOp) and isinstance(x.op, (ast.FloorDiv, ast.Div, ast.Mod)))
+                                          or (isinstance(x, ast.Call) and (pyfront.call_name(x) or "").split(".")[-1] in ROUNDING_CALLS))
+                         for x in ast.walk(a.value))
+            which = src[0][0]
+            rounded = rounds or any(s_[1] for s_ in src)
+            for t in a.targets:
+                if isinstance(t, ast.Name):
+                    if t.id in ("starttime", "endtime") and not rounded:
+                        continue
+                    taint[t.id] = (which, rounded)
+                elif isinstance(t, ast.Attribute) and isinstance(t.value, ast.Name) and t.value.id == "self":
+                    out[t.attr] = ("rounded" if rounded else "exact", which, a)
+    return out
+
+
+def _formula_subject(m):
+    """the handler method (private helpers inlined) on which the window verdict is computed as a formula: the first loop-free
+    one that reads a bound attribute; dispatch first, then the private methods"""
+    from .. import pyform
+    battrs = _bound_attrs(m)
+    if not battrs:
+        raise AnalysisError("%s.__init__: no attribute is derived from the starttime / endtime parameters" % H)
+    cands = [H + ".dispatch"] + sorted(H + "." + n for n in m.methods(H) if n.startswith("_") and not n.startswith("__"))
+    first_err = None
+    for q in cands:
+        view = m.flat(q)
+        f = view.fn()
+        reads = any(isinstance(x, ast.Attribute) and isinstance(x.value, ast.Name) and x.value.id == "self" and x.attr in battrs
+                    and isinstance(x.ctx, ast.Load) for x in ast.walk(f))
+        if not reads:
+            continue
+        if any(isinstance(x, (ast.While, ast.AsyncFor, ast.With)) or (isinstance(x, ast.For) and not pyform.is_once_block(x))
+               for x in pyfront.walk_no_nested(f) if x is not f):
+            first_err = first_err or q
+            continue
+        return q, view, battrs
+    if first_err:
+        raise AnalysisError("%s: the window is applied inside a loop; the verdict formula is computed for loop-free methods only" % first_err)
+    raise AnalysisError("%s: no method reads an attribute derived from the window bounds" % H)
+
+
+def _r5_window(r, m):
+    """The verdict of the method that applies the window, as a propositional formula over the outcomes of all its paths
+    (pyform): D = 'returns a false value'.  With T the timedelta built from int(group('secs')) / int(group('frac')) [0 when the
+    group is absent], W = (start is not None and T < start) or (end is not None and T > end):
+    (a) T is built from exactly those groups; (b) the bounds compared are the exact ones (an attribute __init__ rounds is a
+    violation); (c) on the paths where group('secs') raised D does not depend on the window (time-less names are exempt);
+    (d) D does not depend on whether group('frac') exists; (e) for every valuation of the other atoms D is constant or W, and
+    W for at least one: strict comparisons on both sides, each bound guarded by its own None test."""
+    from .. import pyform, cbool, pybool
+    import itertools
+    q, fvw, battrs = _formula_subject(m)
+    f = fvw.fn()
+    bad_T = []
+    good_T = []
+
+    def is_group(e, gname):
+        return isinstance(e, ast.Call) and pyfront.call_name(e) == "int" and len(e.args) == 1 and isinstance(e.args[0], ast.Call) \
+            and isinstance(e.args[0].func, ast.Attribute) and e.args[0].func.attr == "group" and e.args[0].args \
+            and pyfront.const(e.args[0].args[0]) == gname
+
+    class RW(ast.NodeTransformer):
+        def visit_Call(self, node):
+            self.generic_visit(node)
+            if pyfront.call_name(node) == "datetime.timedelta":
+                kw = {k.arg: k.value for k in node.keywords}
+                if not node.args and set(kw) == {"seconds", "milliseconds"} and is_group(kw["seconds"], "secs") and (
+                        is_group(kw["milliseconds"], "frac") or (isinstance(kw["milliseconds"], ast.Constant) and kw["milliseconds"].value == 0)):
+                    good_T.append(node)
+                    return ast.copy_location(ast.Name("T", ast.Load()), node)
+                bad_T.append(node)
+                return ast.copy_location(ast.Name("T_other", ast.Load()), node)
+            return node
+    outs = pyform.outcomes(f, rewrite=lambda e: RW().visit(e))
+    D = pyform.false_when(outs)
+    ats = sorted(cbool.atoms(D))
+    if len(ats) > 14:
+        raise AnalysisError("%s: verdict formula has %d atoms" % (q, len(ats)))
+    exact = {a_ for a_, v in battrs.items() if v[0] == "exact"}
+    rounded = {a_ for a_, v in battrs.items() if v[0] == "rounded"}
+    start_attr = [a_ for a_ in sorted(exact) if battrs[a_][1] == "start"]
+    end_attr = [a_ for a_ in sorted(exact) if battrs[a_][1] == "end"]
+
+    def mentions(atom, attrs):
+        return any(_re_attr(atom, a_) for a_ in attrs)
+    import re as _re
+
+    def _re_attr(atom, a_):
+        return _re.search(r"\bself\.%s\b" % _re.escape(a_), atom) is not None
+    watoms = [a_ for a_ in ats if mentions(a_, exact | rounded)]
+    RS = [a_ for a_ in ats if a_.startswith("raises:") and "group('secs')" in a_]
+    RF = [a_ for a_ in ats if a_.startswith("raises:") and "group('frac')" in a_]
+    line = f.lineno
+    # (b) rounded bounds
+    for a_ in watoms:
+        ra = [x for x in sorted(rounded) if _re_attr(a_, x)]
+        if ra:
+            asg = battrs[ra[0]][2]
+            r.violation(m.rel, q, "no comparison of a name timestamp with self.%stime: `%s` uses self.%s" % (battrs[ra[0]][1], a_[:60], ra[0]),
+                        "the %s of the time window is not applied to the exact name timestamp: `%s` (line %d) rounds the bound, so events "
+                        "within the rounding error of the bound are accepted or dropped differently from the listing, which compares "
+                        "exact timedeltas" % (battrs[ra[0]][1], norm(ast.unparse(asg))[:80], asg.lineno), line=line)
+    if r.findings:
+        return
+    if not watoms:
+        raise AnalysisError("%s: the verdict does not depend on the window bounds" % q)
+    # (c) exemption of names without a time stamp
+    others = [a_ for a_ in ats if a_ not in watoms]
+
+    def cof(val):
+        """D as a function of the window atoms under the valuation `val` of the other atoms: tuple of truth values"""
+        return tuple(cbool.ev(D, dict(val, **dict(zip(watoms, bits)))) for bits in itertools.product((False, True), repeat=len(watoms)))
+    vals = [dict(zip(others, bits)) for bits in itertools.product((False, True), repeat=len(others))]
+    feasible = [v for v in vals if any(not pyform._unsat(cbool.conj([o.cond] + [("atom", k) if b else ("not", ("atom", k)) for k, b in v.items()]))
+                                       for o in outs)]
+    if not RS:
+        helper_has = any(any(isinstance(c, ast.Call) and isinstance(c.func, ast.Attribute) and c.func.attr == "group" and c.args
+                             and pyfront.const(c.args[0]) == "secs" for c in ast.walk(h)) for h, c_, b_ in pyutil.local_helpers(m, f, depth=2))
+        if helper_has:
+            raise AnalysisError("%s: the name time stamp is extracted in a helper; exemption of time-less names not analysed" % q)
+        r.violation(m.rel, q, "window drop not conditional on match.group('secs') succeeding",
+                    "an event for a name without a time stamp (a properties file) is compared with the time window through a "
+                    "substitute time and dropped, although the listing returns properties files whatever the window", line=line)
+    else:
+        dep = [v for v in feasible if any(v[a_] for a_ in RS) and len(set(cof(v))) > 1]
+        if dep:
+            r.violation(m.rel, q, "window drop not conditional on match.group('secs') succeeding",
+                        "an event for a name without a time stamp (a properties file) is compared with the time window through a "
+                        "substitute time and dropped, although the listing returns properties files whatever the window", line=line)
+        else:
+            r.ok("%s:%s %s" % (m.rel, line, q), "on every path where match.group('secs') raised the verdict does not depend on the window: "
+                 "time-less names (properties files) are never dropped by it")
+    # (a) the time compared
+    if bad_T and not r.findings:
+        n = bad_T[0]
+        r.violation(m.rel, q, norm(ast.unparse(n))[:80], "window time is not built from the secs/frac groups of the name", line=line)
+    elif good_T:
+        r.ok("%s:%s %s" % (m.rel, line, q), "the time compared is datetime.timedelta(seconds=int(group('secs')), milliseconds=int(group('frac')) "
+             "or 0 when the group is absent)")
+    if r.findings:
+        return
+    if not good_T:
+        raise AnalysisError("%s: construction of the name timestamp (datetime.timedelta(seconds=, milliseconds=)) not found" % q)
+    if len(start_attr) != 1 or len(end_attr) != 1:
+        raise AnalysisError("%s: exact bound attributes not unique (%s / %s)" % (q, start_attr, end_attr))
+    sa, ea = "self." + start_attr[0], "self." + end_attr[0]
+    S0, E0, LT, GT = "%s is None" % sa, "%s is None" % ea, "%s>T" % sa, "T>%s" % ea
+    nonstrict = {"T>%s" % sa: "start", "%s>T" % ea: "end", "%s==T" % sa: "start", "T==%s" % sa: "start", "%s==T" % ea: "end", "T==%s" % ea: "end"}
+    unknown = [a_ for a_ in watoms if a_ not in (S0, E0, LT, GT)]
+    for a_ in unknown:
+        if a_ in nonstrict:
+            r.violation(m.rel, q, a_, "the window must drop only events strictly outside [start, end] measured on the exact name "
+                        "timestamp: a file whose name timestamp equals the %s bound belongs to the window (the listing is inclusive)" % nonstrict[a_],
+                        line=line)
+    if r.findings:
+        return
+    if unknown:
+        raise AnalysisError("%s: comparison with the window bounds not recognised: `%s`" % (q, unknown[0][:80]))
+    # (d) the presence of the frac group does not matter
+    for v in feasible:
+        for a_ in RF:
+            v2 = dict(v)
+            v2[a_] = not v[a_]
+            if v2 in feasible and cof(v) != cof(v2):
+                r.violation(m.rel, q, "the window verdict depends on whether group('frac') exists", "names without a fraction "
+                            "(metadata files) are judged differently from names with one", line=line)
+                break
+        if r.findings:
+            break
+    # (e) constant or W
+    def W(val):
+        return (not val[S0] and val[LT]) or (not val[E0] and val[GT])
+    wref = tuple(W(dict(zip(watoms, bits))) for bits in itertools.product((False, True), repeat=len(watoms))) \
+        if all(x in watoms for x in (S0, E0, LT, GT)) else None
+    seen_w = False
+    for v in feasible:
+        c = cof(v)
+        if len(set(c)) == 1:
+            continue
+        if wref is not None and c == wref:
+            seen_w = True
+            continue
+        # which side differs: find a window valuation where verdict != W
+        missing = [k for k in (S0, E0, LT, GT) if k not in watoms]
+        if missing:
+            key = "start" if missing[0] in (S0, LT) else "end"
+            r.violation(m.rel, q, "no comparison of the name timestamp `T` with self.%stime" % key, "the %s of the time window is not "
+                        "applied to the exact name timestamp (e.g. a rounded or pre-computed bound is used instead, or its None test "
+                        "is missing): events are accepted or dropped differently from the listing" % key, line=line)
+        else:
+            wit = [dict(zip(watoms, bits)) for bits, x, y in zip(itertools.product((False, True), repeat=len(watoms)), c, wref) if x != y][0]
+            r.violation(m.rel, q, "window verdict differs from (start is not None and T < start) or (end is not None and T > end)",
+                        "for %s the event is %s although the listing would %s the file" % (
+                            ", ".join("%s=%s" % kv for kv in sorted(wit.items())), "dropped" if not W(wit) else "accepted",
+                            "list" if not W(wit) else "not list"), line=line)
+        break
+    if not r.findings:
+        if seen_w:
+            r.ok("%s:%s %s" % (m.rel, line, q), "verdict formula over %d paths: dropped exactly when (start is not None and T < start) or "
+                 "(end is not None and T > end) - strict comparisons, events exactly on a bound are delivered" % len(outs))
+        else:
+            raise AnalysisError("%s: the window formula was not found in the verdict" % q)
+
+
 def r5_inclusive_window(repo=None):
     r = Rule("C15.R5", "the time window is inclusive on the name timestamp; every regex group used exists or is guarded")
     m = pyfront.mod("watchdog_drf", repo)
-    q, fvw = _window_subject(m)
-    f = fvw.fn()
-    g = fvw.cfg()
-    # the time variable: assigned from datetime.timedelta(seconds=<secs>, milliseconds=<frac>)
-    tv = None
-    for n in pyfront.walk_no_nested(f):
-        if isinstance(n, ast.Assign) and isinstance(n.value, ast.Call) and pyfront.call_name(n.value) == "datetime.timedelta" \
-                and isinstance(n.targets[0], ast.Name):
-            kw = {k.arg: k.value for k in n.value.keywords}
-            if set(kw) == {"seconds", "milliseconds"}:
-                tv = n.targets[0].id
-                srcs = {}
-                for part, gname in (("seconds", "secs"), ("milliseconds", "frac")):
-                    v = kw[part]
-                    defs = [x.value for x in pyfront.walk_no_nested(f) if isinstance(x, ast.Assign) and isinstance(v, ast.Name)
-                            and isinstance(x.targets[0], ast.Name) and x.targets[0].id == v.id]
-                    srcs[part] = any(("group('%s')" % gname) in norm(ast.unparse(d)) for d in defs)
-                if all(srcs.values()):
-                    r.ok("%s:%s %s" % (m.rel, n.lineno, q), "`%s` is built from groups secs/frac of the match that decided" % tv)
-                else:
-                    r.violation(m.rel, q, norm(ast.unparse(n)), "window time is not built from the secs/frac groups of the name", line=n.lineno)
-    # names without a time stamp (properties files) are exempt from the window: every window drop happens only after
-    # match.group("secs") succeeded
-    wcmp = [n for n in g.nodes if n.kind == "cond" and isinstance(n.ast, ast.Compare) and not isinstance(n.ast.ops[0], (ast.Is, ast.IsNot))
-            and any(b in norm(ast.unparse(n.ast)) for b in ("self.starttime", "self.endtime"))]
-    drops = []
-    for n in wcmp:
-        ts = [b for b, lab in g.succ[n.id] if lab == "T"]
-        treach = g.reach(ts, skip_labels=("exc",))
-        drops += [x for x in g.nodes if x.kind == "return" and x.id in treach and x not in drops]
-    if wcmp and drops:
-        def has_secs(node_ast):
-            return any(isinstance(c, ast.Call) and isinstance(c.func, ast.Attribute) and c.func.attr == "group" and c.args
-                       and pyfront.const(c.args[0]) == "secs" for c in ast.walk(node_ast))
-        G = [n for n in g.nodes if n.ast is not None and not isinstance(n.ast, (ast.For, ast.If, ast.Try)) and has_secs(n.ast)]
-        helper_has = any(has_secs(h) for h, c, b in pyutil.local_helpers(m, f, depth=2))
-        if not G and helper_has:
-            raise AnalysisError("%s: the name time stamp is extracted in a helper; exemption of time-less names not analysed" % q)
-        gids = [n.id for n in G]
-        # feasible states (truthiness of the simple locals, e.g. `file_time is not None`) with a ghost flag that is true
-        # exactly after match.group('secs') returned normally
-        track = sorted({t.id for n in ast.walk(f) if isinstance(n, ast.Assign) and len(n.targets) == 1 for t in [n.targets[0]]
-                        if isinstance(t, ast.Name)} - {"event"})
-        IN, ix = pyutil.truth_states(g, track, ghost=("<secs ok>", gids))
-        bad = [d for d in drops if any(st[ix["<secs ok>"]] != "T" for st in IN.get(d.id, ()))]
-        if bad:
-            r.violation(m.rel, q, "window drop (`return` at line %d) not conditional on match.group('secs') succeeding" % bad[0].line,
-                        "an event for a name without a time stamp (a properties file) is compared with the time window through a "
-                        "substitute time and dropped, although the listing returns properties files whatever the window", line=bad[0].line)
-        else:
-            r.ok("%s:%s %s" % (m.rel, G[0].line, q), "the window is applied only after match.group('secs') succeeded: time-less names "
-                 "(properties files) are never dropped by it")
-    if tv is None:
-        cmp_bounds = [n for n in g.nodes if n.kind == "cond" and isinstance(n.ast, ast.Compare)
-                      and not isinstance(n.ast.ops[0], (ast.Is, ast.IsNot))
-                      and any(b in norm(ast.unparse(n.ast)) for b in ("self.starttime", "self.endtime"))]
-        if not cmp_bounds:
-            for key in ("start", "end"):
-                r.violation(m.rel, q, "no comparison of a name timestamp with self.%stime" % key, "the %s of the time window is not applied "
-                            "to the exact name timestamp (a rounded or pre-computed bound is used instead): events within the rounding "
-                            "error of the bound are accepted or dropped differently from the listing, which compares exact timedeltas" % key,
-                            line=f.lineno)
-            r.guard(2)
-            return r
-        if r.findings:
-            return r        # positive evidence already reported; the rest of the rule cannot be analysed on this form
-        raise AnalysisError("%s: construction of the name timestamp (datetime.timedelta(seconds=, milliseconds=)) not found" % q)
-    found = {"start": False, "end": False}
-    for n in g.nodes:
-        if n.kind != "cond" or not isinstance(n.ast, ast.Compare) or len(n.ast.ops) != 1:
-            continue
-        l, rgt, op = norm(ast.unparse(n.ast.left)), norm(ast.unparse(n.ast.comparators[0])), n.ast.ops[0]
-        if isinstance(op, (ast.Is, ast.IsNot)):
-            continue
-        for bound, key, good in (("self.starttime", "start", ((tv, ast.Lt, "self.starttime"), ("self.starttime", ast.Gt, tv))),
-                                 ("self.endtime", "end", ((tv, ast.Gt, "self.endtime"), ("self.endtime", ast.Lt, tv)))):
-            if bound not in (l, rgt):
-                continue
-            if any(l == a_ and isinstance(op, o_) and rgt == b_ for a_, o_, b_ in good):
-                ts = [b for b, lab in g.succ[n.id] if lab == "T"]
-                treach = g.reach(ts, skip_labels=("exc",))
-                rets = [x for x in g.nodes if x.kind == "return" and x.id in treach]
-                if rets:
-                    found[key] = True
-                    r.ok("%s:%s %s `%s`" % (m.rel, n.line, q, n.label), "strict comparison: events exactly on the bound are delivered")
-                else:
-                    r.violation(m.rel, q, n.label, "window test does not drop the event", line=n.line)
-            else:
-                found[key] = True
-                r.violation(m.rel, q, n.label, "the window must drop only events strictly outside [start, end] measured on the exact name "
-                            "timestamp `%s`: a file whose name timestamp equals the bound belongs to the window (the listing is "
-                            "inclusive)" % tv, line=n.line)
-    for key, ok_ in found.items():
-        if not ok_:
-            r.violation(m.rel, q, "no comparison of the name timestamp `%s` with self.%stime" % (tv, key), "the %s of the time window is not "
-                        "applied to the exact name timestamp (e.g. a rounded or pre-computed bound is used instead): events within the "
-                        "rounding error of the bound are accepted or dropped differently from the listing" % key, line=f.lineno)
+    err = None
+    try:
+        _r5_window(r, m)
+    except AnalysisError as e:
+        err = e
     # group uses: defined in every regex that can reach the use, or inside a try catching IndexError
     fo = cfold.Folder(repo)
     import re as _re
@@ -464,6 +598,8 @@ def r5_inclusive_window(repo=None):
                                     "not guarded: an event/path matched by such a regex raises IndexError" % gname, line=c.lineno)
     if uses < 6:
         raise AnalysisError("only %d m.group() uses found" % uses)
+    if err is not None and not r.findings:
+        raise err
     r.guard(9)
     return r
 
